@@ -61,6 +61,7 @@ type Case struct {
 	Gen   string   `json:"gen"`
 	Conc  *Conc    `json:"conc,omitempty"`
 	Dev   *Dev     `json:"dev,omitempty"`
+	Live  *Live    `json:"live,omitempty"`
 }
 
 var consts = map[string]int64{}
@@ -707,6 +708,7 @@ func main() {
 	replayIn := flag.String("replay", "", "JSON file with cases (addrs, ops, pa | conc) to run; observed results are filled in")
 	corpus := flag.String("corpus", "", "directory of corpus JSON cases to prepend")
 	conc := flag.Int("conc", 16, "callers in the concurrent new-address scenario (0 = skip)")
+	live := flag.Bool("live", true, "run the real-collector liveness scenario")
 	dev := flag.String("dev", "v4,v6", "device-level real-time scenarios to run (comma separated families, empty = skip)")
 	flag.Parse()
 	if err := os.MkdirAll(*out, 0o755); err != nil {
@@ -717,6 +719,16 @@ func main() {
 	var devs []*Dev
 	var devFamilies []string
 	devDone := make(chan struct{})
+	var liveRes *Live
+	liveDone := make(chan struct{})
+	runLiveBg := func(on bool) {
+		go func() {
+			if on {
+				liveRes = runLive()
+			}
+			close(liveDone)
+		}()
+	}
 	startDev := func() {
 		go func() { // device worlds one after the other (quiescence detection is process-wide)
 			for _, f := range devFamilies {
@@ -734,14 +746,19 @@ func main() {
 		if err := json.Unmarshal(data, &in); err != nil {
 			panic(err)
 		}
+		wantLive := false
 		for i := range in {
 			if in[i].Dev != nil {
 				devFamilies = append(devFamilies, in[i].Dev.Family)
 			}
+			if in[i].Live != nil {
+				wantLive = true
+			}
 		}
 		startDev()
+		runLiveBg(wantLive)
 		for i := range in {
-			if in[i].Dev != nil {
+			if in[i].Dev != nil || in[i].Live != nil {
 				continue
 			}
 			if in[i].Conc != nil {
@@ -761,6 +778,7 @@ func main() {
 			}
 		}
 		startDev()
+		runLiveBg(*live)
 		if *corpus != "" {
 			files, _ := filepath.Glob(filepath.Join(*corpus, "*.json"))
 			for _, f := range files {
@@ -771,7 +789,7 @@ func main() {
 				var cs []Case
 				if json.Unmarshal(data, &cs) == nil {
 					for _, c := range cs {
-						if c.Conc != nil || c.Dev != nil || len(c.Addrs) == 0 {
+						if c.Conc != nil || c.Dev != nil || c.Live != nil || len(c.Addrs) == 0 {
 							continue
 						}
 						c.Gen = "corpus"
@@ -850,6 +868,15 @@ func main() {
 		for _, d := range devs {
 			cases = append(cases, Case{Addrs: []string{}, Ops: []Op{}, Obs: []int64{}, Nogc: []bool{}, Alone: []bool{}, Gen: "device-level-" + d.Family, Dev: d})
 		}
+	}
+	<-liveDone
+	if liveRes != nil {
+		if err := writeLive(filepath.Join(*out, "cases_C19_live.v"), liveRes); err != nil {
+			panic(err)
+		}
+		meta["live_file"] = "cases_C19_live.v"
+		meta["live_index"] = len(cases)
+		cases = append(cases, Case{Addrs: []string{}, Ops: []Op{}, Obs: []int64{}, Nogc: []bool{}, Alone: []bool{}, Gen: "real-collector-liveness", Live: liveRes})
 	}
 	meta["cases"] = cases
 	data, _ := json.Marshal(meta)
